@@ -52,6 +52,9 @@ var ErrReadQuorum = errors.New("read quorum cannot be reached")
 type version struct {
 	host  *discovery.Member
 	entry storage.Entry
+	// previousOwner is true if the version has been read from the primary partition of
+	// a previous partition owner.
+	previousOwner bool
 }
 
 // getOnFragment retrieves an entry from the associated fragment based on the provided environment details.
@@ -97,7 +100,7 @@ func (dm *DMap) lookupOnPreviousOwner(owner *discovery.Member, key string) (*ver
 		return nil, protocol.ConvertError(err)
 	}
 
-	v := &version{host: owner}
+	v := &version{host: owner, previousOwner: true}
 	e := dm.engine.NewEntry()
 	e.Decode(value)
 	v.entry = e
@@ -244,6 +247,13 @@ func (dm *DMap) lookupOnReplicas(hkey uint64, key string) []*version {
 func (dm *DMap) readRepair(winner *version, versions []*version) {
 	for _, value := range versions {
 		if value.entry != nil && winner.entry.Timestamp() == value.entry.Timestamp() {
+			continue
+		}
+		if value.previousOwner {
+			// PutEntry stores the entry in the backup partition of its receiver. A previous
+			// owner holds the stale version in its primary partition and hands it over to
+			// this node, where the newer version wins. Nothing to synchronize there: a copy
+			// in its backup partition would be owned by nobody and missed by Delete.
 			continue
 		}
 
